@@ -65,6 +65,18 @@ def is_map_failed(t):
     return False
 
 
+def by_variant(arms, vnames):
+    """{variant name: value} from the arms of a discriminant switch; the `otherwise` arm (`matches!`, `if let`) stands for every
+    variant not named by another arm."""
+    out = {vnames[k]: v for k, v in arms.items() if isinstance(k, int) and k < len(vnames)}
+    for k, v in arms.items():
+        if isinstance(k, tuple) and k and k[0] == "not":
+            for i, n in enumerate(vnames):
+                if i not in k[1] and n not in out:
+                    out[n] = v
+    return out
+
+
 def check(ctx):
     configs = ["native"] if ctx.tier == "quick" else ["native", "portable", "native-rel", "portable-rel"]
     for cfg in configs:
@@ -178,7 +190,7 @@ def check_config(ctx, F, tag):
     detail = "protection argument is not a per-mode switch result"
     if arms:
         on, m = arms
-        byname = {vnames[k]: v for k, v in m.items() if isinstance(k, int) and k < len(vnames)}
+        byname = by_variant(m, vnames)
         mode_param = on[0] == "discr" and on[1][0] == "param" and on[1][1] == 1
         okp = mode_param and const_names(byname.get("ReadOnly", ())) == {"libc::PROT_READ"} and \
             const_names(byname.get("Mutable", ())) == {"libc::PROT_READ", "libc::PROT_WRITE"} and \
@@ -204,7 +216,7 @@ def check_config(ctx, F, tag):
             arms = arm_values(t)
             if arms:
                 on, m = arms
-                byname = {vnames[k]: v for k, v in m.items() if isinstance(k, int) and k < len(vnames)}
+                byname = by_variant(m, vnames)
                 okw = on[0] == "discr" and on[1][0] == "param" and on[1][1] == 1 and \
                     byname.get("ReadOnly") == ("const", 0) and byname.get("Mutable") == ("const", 1)
                 detail = "write(..) per mode: %s" % {k: tstr(v) for k, v in byname.items()}
